@@ -781,3 +781,23 @@ pub fn verif_c12_params(d: &Int) -> (u32, u32, u32, u32, u32) {
     let (a_count, nfacs) = a_params(adjsize);
     (adjsize, fb, interval_size(adjsize), a_count, nfacs)
 }
+
+// ---------------------------------------------------------------------------
+// Verification hooks (add-only, compiled only with --cfg yamaquasi_verif).
+
+/// (a_params = (number of A values, factors per A), interval_size, large_prime_factor)
+/// for the adjusted size `sz`.
+#[cfg(yamaquasi_verif)]
+pub fn verif_params(sz: u32) -> ((u32, u32), u32, u64) {
+    (a_params(sz), interval_size(sz), large_prime_factor(sz))
+}
+
+#[cfg(yamaquasi_verif)]
+pub fn verif_double_large_factor(d: &Int) -> u64 {
+    double_large_factor(d)
+}
+
+#[cfg(yamaquasi_verif)]
+pub fn verif_smoothness_bias(d: &Int) -> f64 {
+    smoothness_bias(d)
+}
